@@ -124,8 +124,15 @@ func OrderedDaemon.runBackgroundWorker$1
   requires d != nil && *d != nil && worker != nil && *worker != nil && shutdownOrderWaitGroup != nil && *shutdownOrderWaitGroup != nil && backgroundWorker != nil && *backgroundWorker != nil && name != nil
   requires unlocked((*d).lock)
   requires sel(sync.wgcount, *shutdownOrderWaitGroup) >= 1   -- the starter has counted this goroutine (Add before go)
+  requires aload((*worker).running)                          -- set by the starter before the goroutine exists
   callback backgroundWorker(ctx)          -- the handler cannot reach the variables this closure captured
   modifies everything
+  -- the order matters: the worker stays flagged as running until it has left the registry (a registration of the same
+  -- name in between would be removed by this goroutine's clean-up), and it leaves its WaitGroup before it asks for the
+  -- daemon lock (stopWorkers waits for the group while holding it)
+  ghost before call WaitGroup.Done: assert aload((*worker).running) && unlocked((*d).lock)
+  ghost before call OrderedDaemon.cleanupWorker: assert aload((*worker).running) && sel(sync.wgcount, *shutdownOrderWaitGroup) == old(sel(sync.wgcount, *shutdownOrderWaitGroup)) - 1
+  ensures !aload((*worker).running) && unlocked((*d).lock)
 
 -- sort.Slice on the name list: reorders the elements of that slice and nothing else (what the order is afterwards
 -- is the assumption stated at the call in BackgroundWorker); it calls less with valid indices only
@@ -162,6 +169,8 @@ func OrderedDaemon.BackgroundWorker
 func OrderedDaemon.Start
   requires d != nil && unlocked(d.lock) && (!aload(d.stopped) ==> d.workers != nil)
   modifies everything
+  -- no worker is started on a daemon that has been stopped, and none twice
+  ghost before call OrderedDaemon.runBackgroundWorker: assert !aload(d.stopped) && aload(d.running) && held(d.lock)
   loop 1 invariant held(d.lock) && moninv(d)
   ensures unlocked(d.lock)
 @*/
